@@ -578,6 +578,23 @@ def kernel_cross_check(ctx, report, status):
                     m["flag"] == r["flag"] and near(m["shift"], r["shift"], tol) and near(m["cost"], r["cost"], tol)))
                 if not same:
                     report.disagree("refinement_method", single_pixel(case, 0, j), r, m)
+    # (c) the guard of loop_refinement: the translated expression against CPython's evaluation of the same source text
+    g = kernels.get("refineGuard")
+    if g is not None:
+        for n_disp in (1, 2, 3, 5):
+            for dsp in range(-1, n_disp + 1):
+                for dv in (-2, -1, 0, Fraction(1, 2), 1, 3):
+                    for (lo, hi) in ((-1, 1), (0, 3), (-2, -2)):
+                        env = {"dsp": dsp, "n_disp": n_disp, "disp": np.array([[float(dv)]]), "row": 0, "col": 0,
+                               "d_min": float(lo), "d_max": float(hi), "np": np}
+                        want = bool(eval(g.source, {"__builtins__": {}}, env))  # pylint: disable=eval-used
+                        res, vals = pyexpr.evaluate(g, dsp, n_disp, dv, lo, hi)
+                        report.count("kernel_guard_evaluations")
+                        if res != "ok" or bool(vals[0]) != want:
+                            problems += 1
+                            if problems <= 3:
+                                status.problem("translator", f"translated guard `{g.source}` evaluates to {vals} where Python "
+                                               f"gives {want} (dsp={dsp}, n_disp={n_disp}, disp={dv}, interval={lo, hi})")
     report.notes.append(f"kernels: {4 * len(triples)} direct calls of the two refinement_method compared with the "
                         f"translator's evaluator and with the hand model; {problems} translator mismatches")
 
@@ -591,7 +608,9 @@ def run(ctx, report, status):
         "specification evaluated on the implementation's output. Cases: every cost triple over {0,1,2,3,NaN}^3 at "
         "every position of a 5-sample interval (both methods, min/max, subpix 1/2/4); random maps with ties, NaN "
         "holes, per-pixel intervals, invalid pixels, preset bit 3 and off-grid (post-filter) disparities; each "
-        "random map refined a second time; refinement steps observed inside real pipelines (pandora.run). "
+        "random map refined a second time; refinement steps observed inside real pipelines (pandora.run); a few hundred "
+        "direct calls of Vfit/Quadratic.refinement_method (ties, flats, NaN anywhere, min/max) compared with the "
+        "translator's own evaluation of the kernels it regenerated and with the hand model. "
         "Non-trivial = at least one valid pixel with a numeric disparity; distinct by canonical input."
     )
     rng = ctx.rng
